@@ -6,5 +6,7 @@ CONSTANTS
   BgSeq <- C0
   Fixed = {}
   Budget = 0
+  Unbuffered = {}
+  SrcOver <- NoOver
   Allowed <- PAny
 CHECK_DEADLOCK FALSE
